@@ -80,6 +80,9 @@ def _docs():
     d['999'] = (open(os.path.join(pdir, 'tests', '834_lui_id_5010.999.txt')).read(), '2000', 'AK202', '0009')
     d['278'] = (_only_278(_DF['multiple_trn']['source']), 'ST_LOOP', 'BHT03', 'X')
     d['multi_isa'] = (_DF['mult_isa']['source'], 'ST_LOOP', 'BHT03', 'X')
+    # a valid 835 interchange followed by an interchange for which no map exists: validation aborts (documented map-not-found
+    # error) after the XML / HTML / acknowledgement sinks have started
+    d['mapless'] = (_DF['835id']['source'].rstrip() + '\n' + _DF['835id']['source'].replace('004010X091A1', '004010X999ZZ').replace('*000010121*', '*000010122*'), 'ST_LOOP', 'BPR02', '1')
     d['834_delims'] = (_two_codes(_redelimit(open(os.path.join(pdir, 'examples', 'example834_5010.txt')).read(), [('*', '|'), ('~', '!')]), '|', '!'),
                        '2000', 'INS02', '19')
     return d
@@ -164,7 +167,7 @@ def cross_map_pairs(thorough):
                 continue
             out.append((na, nb))
     return out, skipped
-DOC_ORDER = ['837p', '837p_bad', '834_5010', '835', '999', '278', 'multi_isa', '834_delims']
+DOC_ORDER = ['837p', '837p_bad', '834_5010', '835', '999', '278', 'multi_isa', '834_delims', 'mapless']
 OPNAME = {'P': 'validate[map_path=site copy whose codes.xml lacks state MI]', 'v': 'validate', 'c': 'context', 'x': 'xml2x12', 'V': 'validate[charset=B,exclude=states]', 'C': 'context[charset=B,exclude=states]'}
 MAPPATH_DOCS = ('837p', '834_5010')      # documents with a state code MI: validated under another map directory as well
 VARIANT_DOCS = ('834_5010', '834_delims', '837p')       # documents with lower-case text / state codes, sensitive to the variant
@@ -281,6 +284,7 @@ class Ctx(object):
         return self.maps[k]
 
 
+FAILURES = []
 _ALT = [None, None]
 
 
@@ -315,6 +319,7 @@ def op_validate(text, param, map_path=None):
         obs['verdict'] = repr(pyx12.x12n_document.x12n_document(param, io.StringIO(text), f9, fh, fd_xmldoc=fx, map_path=map_path))
     except Exception as e:
         obs['raises'] = '%s@%s' % (type(e).__name__, core.where(e))
+        FAILURES.append(e)          # a batch driver keeps its failures (and with them the frames of the aborted call) until the end
     obs['ack'] = f9.getvalue()
     obs['html'] = fh.getvalue()
     obs['xml'] = fx.getvalue()
